@@ -148,8 +148,13 @@ def run_case(rep, scn, case, sb: Path, tag):
                     r["config"]["ignore_errors"] = rng.sample(others, min(len(others), rng.randint(1, 3)))
                     path_fault = victim
                     break
+    # every third run goes through the tool's own file writer (apt_mirror/aiofile.py) instead of the simulated one;
+    # not together with local faults, which are keyed to the simulated writer's sequence of filesystem calls
+    real_writer = case["seed"] % 3 == 0 and not path_fault and not case["local_fault"]
     res = R.run_observed(scn2, base, plan=plan, files_by_url=served,
-                         local_fault=None if path_fault else case["local_fault"], path_fault=path_fault)
+                         local_fault=None if path_fault else case["local_fault"], path_fault=path_fault,
+                         real_writer=real_writer)
+    rep.count("real_file_writer.runs", int(real_writer))
     kinds = sorted({k for pl in plan.values() for sc in pl.values() for k in sc["first"] + [sc["rest"]] if k != "good"})
     rep.case(("run", res.code, tuple(kinds), bool(res.fault_hit), case["switch"], len(scn.repos), case["prior"]),
              sample={"exit": res.code, "results": res.results, "fault_kinds": kinds, "local_fault": res.fault_hit,
